@@ -14,8 +14,8 @@ mkdir -p /tmp/mutconfirm
 cd $W; git checkout -q -- .; git clean -fdq -e target
 STEM=${FILE%.rs}
 if [ -n "${INCRATE:-}" ]; then
-  cp $S/demo/$FILE $W/$INCRATE; TARGETS="--lib"
-  prep() { cp $S/demo/$FILE $W/$INCRATE; [ -n "${WIRING:-}" ] && git apply $S/demo/$WIRING; }
+  mkdir -p $(dirname $W/$INCRATE); cp $S/demo/$FILE $W/$INCRATE; TARGETS="--lib"
+  prep() { mkdir -p $(dirname $W/$INCRATE); cp $S/demo/$FILE $W/$INCRATE; [ -n "${WIRING:-}" ] && git apply $S/demo/$WIRING; }
 else
   TARGETS="--lib --test $STEM"
   prep() { mkdir -p $W/$CDIR/tests; cp $S/demo/$FILE $W/$CDIR/tests/$FILE; }
